@@ -175,6 +175,17 @@ func buildRegions(o *Out, maxSegs int) []gts.Regions {
 	return out
 }
 
+// mirrorRegions: the same residues read on the other strand: segments in the
+// opposite order, each with head and tail exchanged.
+func mirrorRegions(rr gts.Regions) gts.Regions {
+	out := make(gts.Regions, len(rr))
+	for i, r := range rr {
+		seg := r.(gts.Segment)
+		out[len(rr)-1-i] = gts.Segment{seg[1], seg[0]}
+	}
+	return out
+}
+
 func runC08(o *Out) {
 	maxSegs := 3
 	if o.Tier == "thorough" {
@@ -194,7 +205,18 @@ func runC08(o *Out) {
 		for _, strand := range []bool{false, true} {
 			var r gts.Region = fwd
 			if strand {
-				r = fwd.Complement()
+				// the reverse-strand region is written out here, not obtained from
+				// Regions.Complement, which is itself under test below
+				r = mirrorRegions(fwd)
+				res := o.Run("region-complement", len(fwd) > 1, "region_complement", regionSx(fwd))
+				if want := "ok " + regionSx(r); res != want {
+					o.Violate("complement-of-regions", join("region_complement", regionSx(fwd)), fmt.Sprintf("got %s want %s", res, want))
+				}
+				// the complement strand reads the reverse complement of the same residues
+				a, b := fwd.Locate(seq).Bytes(), fwd.Complement().Locate(seq).Bytes()
+				if string(b) != string(gts.Complement(gts.Reverse(gts.New(nil, nil, a))).Bytes()) {
+					o.Violate("complement-locate", join("region_complement", regionSx(fwd)), fmt.Sprintf("%q vs %q", a, b))
+				}
 			}
 			if len(fwd) == 1 && !strand {
 				// also the bare segment (Segment.Resize rather than Regions.Resize)
